@@ -298,6 +298,34 @@ func runCheck(eng *Eng, id, tier string, replay, keep bool, only string) int {
 			c.Result = &r
 		}()
 	}
+	// thorough tier: per-obligation vacuity. Every obligation is "under path condition pc the goal holds"; if the
+	// assumptions collected up to that point contradict pc, the obligation was discharged for free. One cover per
+	// distinct (function, prefix of assumptions, pc).
+	var pcCovers []*Obligation
+	if tier == "thorough" {
+		seen := map[string]bool{}
+		for _, o := range allObls {
+			if o.task == nil || o.Pc == tTrue || o.Goal == tTrue || o.Kind == "panic" {
+				continue // (a panic obligation *is* the claim that its path is unreachable)
+			}
+			key := fmt.Sprintf("%p|%d|%s", o.task, o.NAssert, o.Pc)
+			if seen[key] {
+				continue
+			}
+			seen[key] = true
+			c := &Obligation{Name: o.Name + "#reach", Kind: "cover", Fn: o.Fn, Pc: o.Pc, Goal: tFalse, NAssert: o.NAssert, task: o.task, Src: o.Src}
+			pcCovers = append(pcCovers, c)
+			wg.Add(1)
+			go func() {
+				defer wg.Done()
+				sem <- struct{}{}
+				defer func() { <-sem }()
+				q := c.task.query(c, nil)
+				r := runPortfolio(workDir, c.Name, q, nil, 4, false)
+				c.Result = &r
+			}()
+		}
+	}
 	wg.Wait()
 	// second chance for obligations nobody decided (solver incompleteness / a loaded machine): longer budget
 	for _, o := range allObls {
@@ -348,6 +376,13 @@ func runCheck(eng *Eng, id, tier string, replay, keep bool, only string) int {
 	if len(allObls) == 0 {
 		undecided = append(undecided, "no obligations were generated for "+id)
 	}
+	var unreachableObls []string
+	for _, c := range pcCovers {
+		if c.Result != nil && c.Result.Status == "unsat" {
+			unreachableObls = append(unreachableObls, c.Name+" ("+c.Src+")")
+		}
+	}
+	sort.Strings(unreachableObls)
 
 	exit := 0
 	violations := 0
@@ -492,7 +527,7 @@ func runCheck(eng *Eng, id, tier string, replay, keep bool, only string) int {
 			"solver_ms_total":          solverMs,
 			"requires_listed":          requiresListed,
 			"lemmas":                   len(lemmas),
-			"vacuity":                  map[string]interface{}{"covers_checked": len(covers), "unreachable": vacuous},
+			"vacuity":                  map[string]interface{}{"covers_checked": len(covers), "unreachable": vacuous, "obligation_paths_checked": len(pcCovers), "obligations_on_unreachable_paths": unreachableObls},
 			"failed_obligations":       failedNames,
 			"undecided":                undecided,
 			"known_findings_reported":  knownLines,
